@@ -40,7 +40,7 @@ func c18Snapshot(s *state.State) string {
 }
 
 func TestC18(t *testing.T) {
-	col := ev.New("C18", "rapid state machine over state.State: register stores of constant and symbolic values with "+
+	col := ev.New("C18", "rapid state machine over state.State: register stores of constant and symbolic values (incl. loads of the destination register itself and of other registers of the file) with "+
 		"value width <, =, > store width, register loads at any width, Apply of register stores and of memory stores "+
 		"with constant, foldable (constant sub-tree) and non-constant addresses. Model: key -> (expression, store width); "+
 		"loaded expression evaluated by the math/big evaluator under 2 valuations must equal fit(fit(value,w_store),w_load). "+
@@ -64,6 +64,25 @@ func TestC18(t *testing.T) {
 			w := irsem.GenWidth(t, irsem.GenCfg{}, "sw")
 			if rapid.IntRange(0, 2).Draw(t, "eqw") == 0 {
 				w = v.Width()
+			}
+			switch rapid.IntRange(0, 7).Draw(t, "selfRef") {
+			case 0:
+				// register moved to itself (at the store width or another width): the
+				// value denotes the register's content in the valuation, not the
+				// stored expression, so the store still replaces the whole register
+				lw := w
+				if rapid.Bool().Draw(t, "selfOtherW") {
+					lw = irsem.GenWidth(t, irsem.GenCfg{}, "selfW")
+				}
+				if k != expr.IPKey { // the instruction pointer key cannot be loaded
+					v = expr.NewRegLoad(k, lw)
+				}
+			case 1:
+				// value computed from the destination and another register of the file
+				k2 := keys[rapid.IntRange(0, len(keys)-1).Draw(t, "key2")]
+				if k != expr.IPKey && k2 != expr.IPKey {
+					v = expr.NewBinary(expr.Add, expr.NewRegLoad(k, w), expr.NewRegLoad(k2, w), w)
+				}
 			}
 			if viaApply {
 				var ok bool
